@@ -508,13 +508,19 @@ impl WritersHandle {
     fn set_new_spec(&self, new_spec: LogSpecification) -> Result<(), FlexiLoggerError> {
         let max_level = new_spec.max_level();
         #[cfg(flexi_logger_verif)]
-        crate::verif_hooks::sync_op(crate::verif_hooks::Op::Point("spec_write"));
+        crate::verif_hooks::sync_op(crate::verif_hooks::Op::Acquire(
+            "spec_lock",
+            crate::verif_hooks::id_of(&self.spec),
+        ));
         self.spec
             .write()
             .map_err(|_| FlexiLoggerError::Poison)?
             .update_from(new_spec);
         #[cfg(flexi_logger_verif)]
-        crate::verif_hooks::sync_op(crate::verif_hooks::Op::Point("spec_written"));
+        crate::verif_hooks::sync_op(crate::verif_hooks::Op::Release(
+            "spec_lock",
+            crate::verif_hooks::id_of(&self.spec),
+        ));
         self.reconfigure(max_level);
         Ok(())
     }
